@@ -6,8 +6,8 @@
    Not modelled: mmap windows (every probe_mmap is assumed to succeed), locks, the data listener, the 64-bit wrap of
    offset_bits+length_bits, file contents other than the bitmap.  crzvar and the double-precision over-allocation
    decision are replaced by the oracle boolean [ovr] (consulted only where the C code evaluates the decision).
-   [vr] selects the code variant: all-false = src/fs/iwfsmfile.c as it is; fx_lfbk / fx_strict follow the code after
-   fixes/fsm-lfbk.diff / fixes/fsm-strict-dealloc.diff.  No proofs here. *)
+   [vr] selects the code variant: all-false = src/fs/iwfsmfile.c as it is; fx_lfbk / fx_strict / fx_sync / fx_short follow the code
+   after fixes/fsm-lfbk.diff / fsm-strict-dealloc.diff / fsm-syncbmap.diff / fsm-dealloc-short.diff.  No proofs here. *)
 Require Import ZArith List Bool. Require Import IW.Lib.CInt IW.Gen.Facts IW.FS.Bits. Import ListNotations.
 Local Open Scope Z_scope. Local Open Scope bool_scope.
 
@@ -48,7 +48,7 @@ Fixpoint lookup_bounds (k : key) (t : list key) (lb : option key) : option key *
   end.
 
 (* code variant + the one open-time option that changes control flow (mmap_all) *)
-Record variant := mkVariant { fx_lfbk : bool; fx_strict : bool; fx_sync : bool; mmap_all : bool }.
+Record variant := mkVariant { fx_lfbk : bool; fx_strict : bool; fx_sync : bool; fx_short : bool; mmap_all : bool }.
 
 Record fsm := mkFsm {
   bm : list bool; tree : list key; lfbkoff : Z; lfbklen : Z;
@@ -340,6 +340,7 @@ Definition deallocate (s : fsm) (addr len : Z) : Z * fsm :=
   let offset_blk := shr addr (bpow s) in
   let length_blk := shr len (bpow s) in
   if negb (Z.land addr (blkmask s) =? 0) then (IWFS_ERROR_RANGE_NOT_ALIGNED, s) else
+  if fx_short (vr s) && (length_blk <? 1) then (FSM_IW_ERROR_INVALID_ARGS, s) else
   if touches_meta s offset_blk length_blk then (IWFS_ERROR_FSM_SEGMENTATION, s) else
   blk_deallocate s offset_blk length_blk.
 
@@ -386,7 +387,7 @@ Definition close (s : fsm) (notrim : bool) : Z * fsm :=
 Definition reopen (s : fsm) (strict' mmap_all' : bool) : fsm :=
   load_fsm (mkFsm (bm s) [] 0 0 (bmoff s) (bmlen s) (hdrlen s) (bpow s) (aunit s) (fsize s)
                   (p_crzsum s) (p_crznum s) (p_crzsum s) (p_crznum s) strict'
-                  (mkVariant (fx_lfbk (vr s)) (fx_strict (vr s)) (fx_sync (vr s)) mmap_all')).
+                  (mkVariant (fx_lfbk (vr s)) (fx_strict (vr s)) (fx_sync (vr s)) (fx_short (vr s)) mmap_all')).
 
 (* iwfs_fsmfile_open of a new (truncated) file: _fsm_init_impl + _fsm_init_new_lw *)
 Definition open_new (v : variant) (obpow ohdrlen obmlen : Z) (strict' : bool) : Z * fsm :=
